@@ -11,7 +11,7 @@ RX_ON = re.compile(r'^On (.*?) (go to|shift to|reduce using|success|S/R CONFLICT
 def parse(text):
     lines = text.split('\n')
     sec = None
-    out = {'rules': [], 'states': [], 'header': {}, 'unknown': []}
+    out = {'rules': [], 'states': [], 'header': {}, 'unknown': [], 'lexer': []}
     cur = None
     for ln in lines:
         if ln in ('PARSER', 'RULES', 'STATES', 'LEXICAL ANALYZER'):
@@ -58,7 +58,62 @@ def parse(text):
                 cur['items'].append([m.group(1), body[:d], body[d + 1:], m.group(3).strip()])
                 continue
             out['unknown'].append(ln)
+            continue
+        if sec == 'LEXICAL ANALYZER':
+            if not ln.strip():
+                continue
+            m = re.match(r'^STATE (\d+)(.*)$', ln, re.S)
+            if not m:
+                out['unknown'].append(ln)
+                continue
+            idx, rest = int(m.group(1)), m.group(2)
+            if rest == ' (unreachable) ':
+                out['lexer'].append({'n': idx, 'unr': 1, 'rec': 0, 'name': '', 'tr': []})
+                continue
+            rec = 0
+            if rest.startswith(' recognized '):
+                rec = 1
+                rest = rest[len(' recognized '):]
+            k = rest.find('   ')
+            if k < 0:
+                out['unknown'].append(ln)
+                continue
+            name, items = rest[:k], rest[k + 3:]
+            tr = []
+            bad = False
+            for it in items.split('  '):
+                if it == '':
+                    continue
+                mm = re.match(r'^\[(\S+) - (\S+)\] -> (\d+)$', it)
+                if mm:
+                    tr.append([char_of(mm.group(1)), char_of(mm.group(2)), int(mm.group(3))])
+                    continue
+                mm = re.match(r'^(\S+) -> (\d+)$', it)
+                if mm:
+                    c = char_of(mm.group(1))
+                    tr.append([c, c, int(mm.group(2))])
+                    continue
+                bad = True
+            if bad or any(a < 0 or b < 0 for a, b, _ in tr):
+                out['unknown'].append(ln)
+                continue
+            # maximal runs of equal targets (the diagnostic prints runs of 1-2 characters one by one)
+            tr.sort()
+            merged = []
+            for a, b, t in tr:
+                if merged and merged[-1][2] == t and merged[-1][1] + 1 == a:
+                    merged[-1][1] = b
+                else:
+                    merged.append([a, b, t])
+            out['lexer'].append({'n': idx, 'unr': 0, 'rec': rec, 'name': name, 'tr': merged})
     return out
+
+
+def char_of(name):
+    if len(name) == 1:
+        return ord(name)
+    m = re.fullmatch(r'\\x([0-9A-F]{2})', name)
+    return int(m.group(1), 16) if m else -1
 
 
 def to_ids(parsed, dump):
@@ -79,7 +134,7 @@ def to_ids(parsed, dump):
 
     def nterm(name):
         return nts.index(name) if name in nts else -99
-    res = {'g': dump['g'], 'header': parsed['header'], 'unknown': parsed['unknown'][:5],
+    res = {'g': dump['g'], 'header': parsed['header'], 'unknown': parsed['unknown'][:5], 'lexer': parsed['lexer'],
            'rules': [[n, nterm(l), [sym(x) for x in r]] for (n, l, r) in parsed['rules']], 'states': []}
     for st in parsed['states']:
         items = [[nterm(l), [sym(x) for x in b], [sym(x) for x in a], term(la)] for (l, b, a, la) in st['items']]
